@@ -43,13 +43,22 @@ POWERS = ([["int", n] for n in range(-3, 4)] +
 def binop_case(draw):
     op = draw(st.sampled_from(["+", "-", "*", "/"]))
     rel = draw(st.sampled_from(["same_unit", "same_dim", "same_dim", "other_dim", "recip_dim", "shared_atoms", "shared_atoms",
-                                "number_right", "number_left"]))
+                                "same_ids", "number_right", "number_left"]))
     d1 = draw(st.sampled_from(G.DIMS))
     if rel.startswith("number") and op in "+-" and draw(st.integers(0, 3)) > 0:
         d1 = R.ZERO          # a plain number can only be added to a dimensionless quantity (%, ppth, ratios ...)
     u = draw(G.expr_of_dim(d1))
     if rel == "shared_atoms":
         u, sv = draw(G.shared_atoms_pair())
+    if rel == "same_ids":
+        # the SAME two unit ids on both sides with different exponents but equal total dimension (km2/m and m2/km):
+        # a sum still has to convert the right operand
+        a_, b_ = draw(st.sampled_from([(("k", "m"), ("", "m")), (("", "h"), ("", "s")), (("c", "m"), ("m", "m")),
+                                       (("", "ft"), ("", "m")), (("k", "g"), ("", "g")), (("", "min"), ("m", "s"))]))
+        (e1, e2), (f1, f2) = draw(st.sampled_from([((2, -1), (-1, 2)), ((3, -1), (1, 1)), ((1, 2), (2, 1)),
+                                                   ((-1, -1), (-3, 1)), ((1, -2), (-2, 1))]))
+        u = ["*", G.atom(a_[0], a_[1], e1, 1), G.atom(b_[0], b_[1], e2, 1)]
+        sv = ["*", G.atom(a_[0], a_[1], f1, 1), G.atom(b_[0], b_[1], f2, 1)]
     if rel == "recip_dim" and d1 == R.ZERO:
         rel = "other_dim"
     x = draw(G.magnitudes(lo_exp=-30, hi_exp=30))
@@ -66,7 +75,7 @@ def binop_case(draw):
         v = draw(G.expr_of_dim(draw(st.sampled_from(G.DIMS))))
     elif rel == "recip_dim":
         v = draw(G.expr_of_dim(G.neg(d1)))
-    elif rel == "shared_atoms":
+    elif rel in ("shared_atoms", "same_ids"):
         v = sv
     else:
         v = None
@@ -245,7 +254,7 @@ def check_bin(case, v):
     v.label("op" + op, rel)
     if isinstance(x, list) or isinstance(y, list):
         v.label("array")
-    v.nt(rel in ("same_dim", "other_dim", "number_left", "shared_atoms", "recip_dim") or any(c in tu for c in "*/"))
+    v.nt(rel in ("same_dim", "other_dim", "number_left", "shared_atoms", "recip_dim", "same_ids") or any(c in tu for c in "*/"))
     if "%" in tu or "ppth" in tu or "[pi]" in tu:
         v.label("nodim_factor_unit")
 
